@@ -5,6 +5,7 @@ package chainmon
 import (
 	"fmt"
 	"sort"
+	"strings"
 
 	sdk "github.com/cosmos/cosmos-sdk/types"
 	"github.com/lavanet/lava/v5/utils"
@@ -248,6 +249,18 @@ func (m *SubMon) BeforeBlock(s *Sim) {
 
 func (m *SubMon) AfterBlock(s *Sim, b *BlockRes) {
 	if b.Panic != "" {
+		// "... never fail, or halt the chain, because a referenced plan version has disappeared": block processing of a
+		// subscription (expiry, renewal, payout) that panics inside the plans keeper / its fixation store
+		if m.Prop == "C13" {
+			viaSub, viaPlans := false, false
+			for _, f := range lavaFrames(b.Stack) {
+				viaSub = viaSub || strings.HasPrefix(f, "x/subscription/keeper")
+				viaPlans = viaPlans || strings.HasPrefix(f, "x/plans/keeper")
+			}
+			if viaSub && viaPlans {
+				m.v("C13", "subscription-processing-halted-in-plans-keeper", panicSignature(b.Phase, b.Stack), fmt.Sprintf("block %d: %s", b.Height, oneline(b.Panic)), s, b.Step)
+			}
+		}
 		return
 	}
 	ctx := s.TS.Ctx
